@@ -10,6 +10,9 @@ Tie (driver Drivers/C04U2.lean, model Model/Mcu2.lean):
   * `MCU._get_num_base_ctrl_qubits` on a grid of (eigen-angles, error), and MCU's accept / reject decision.
 Oracle: Operator(definition) versus the reference controlled-U (little-endian, pattern character j <-> control k-1-j) to
 1e-7; MCU: spectral norm of the difference <= error whenever the constructor accepts.
+Input-diversity pass (`diversity`, table above `div_conv`): element types of the matrix and of `error`, sign / phase
+structure, call forms (static helpers on larger hosts with permuted qubit lists, gate objects appended twice / copied /
+inverted, argument passing styles) and the sizes where they interact, each case a JSON-able spec that `replay` re-runs.
 """
 import itertools
 import math
@@ -883,6 +886,956 @@ def boundary(ctx, nprng):
 
 
 # ------------------------------------------------------------------------------------------------
+# input-diversity pass
+# ------------------------------------------------------------------------------------------------
+# form x entry point -> where generated  (all in diversity_cases(); evaluated by div_eval() in the worker pool, recorded by
+# div_record(); every case is a JSON-able spec, which is also its replay payload {"probe": "diversity", ...})
+#
+#   1 element types          Ldmcu / Qdmcu / Mcg / Mcg(up_to_diagonal) classes   div_etype_cases  k = 0..3 (+ static on a host)
+#       int64 (X, Z, -I, I, [[0,-1],[1,0]]), float64 (H, RY, -RY, reflection: det -1, complex roots), float64 with -0.0,
+#       float32 / complex64 exactly representable (X, Z, Y, S, sqrt X, iX) -> 1e-7; float32 / complex64 rounded (H, RY,
+#       Haar) -> ValueError of check_u2 or 1e-5; complex128 with -0.0 real and imaginary zeros; ndarray built from numpy
+#       scalars; Fortran order, strided view, read-only array; nested list / tuple / list of numpy scalars (the library
+#       reads `.shape`: unsupported, counted); caller's array unchanged (bytes, dtype).
+#                            MCU class and MCU.mcu                               div_mcu_cases    matrix int64 / f64 / f32 / c64 /
+#       views, error as int 1, float, numpy float32 / float64 scalar; compared with the canonical complex128 + float build
+#                            util.check_u2 / check_su2 / u2_to_su2               div_util_cases
+#   2 scale structure        (a 2x2 unitary has no amplitude profile; the analogue - one entry of modulus 1e-3..1e-6, i.e.
+#                             nearly diagonal / nearly anti-diagonal rotations - is in div_phase_cases "tinyRY", "nearX")
+#   3 sign / phase           Ldmcu, Qdmcu, Mcg, Mcg(utd), MCU                    div_phase_cases
+#       global phase -1, i, -i, e^{it} times I, X, Z, H, RY, RZ, RX, [[0,-1],[1,0]]; RX/RY/RZ at +-2pi, +-4pi, +-3pi,
+#       +-(2pi + a), +-(4pi + a), 6pi - a (k rotating over 1..3, patterns None / random)
+#   4 call forms             static Ldmcu.ldmcu / Qdmcu.qdmcu / Mcg.mcg / MCU.mcu(error = 0 and > 0)   div_static_cases
+#       6-qubit hosts (one register; three registers in two orders), controls non-ascending, non-contiguous, target in
+#       the middle; ints / Qubit list / tuple / QuantumRegister / register slice (also reversed); ctrl_state by keyword,
+#       positionally, every argument by keyword, left out; observable = full host Operator vs the ideal embedded on the
+#       listed qubits in the listed order (identity elsewhere); tied to the model with the host wires mapped back
+#                            gate objects of all four classes                    div_object_cases
+#       circuit.append on permuted host qubits, same object appended twice, copy() before .definition is read (both used),
+#       inverse(), definition.to_gate() / to_instruction(), Mcg up_to_diagonal positionally / by keyword / alone,
+#       constructors with every argument by keyword, ctrl_state None / explicit all-ones / Python int / np.int64 /
+#       np.int32 (documented for MCU, converted by apply_ctrl_state for MCU and Ldmcu since F-C04-13: operator oracle and
+#       tie, also through the static helpers, append / twice / copy / inverse on hosts; Qdmcu / Mcg annotate str: operator
+#       oracle where the call goes through, counted as unsupported where it raises), one matrix object used for two
+#       constructions
+#   5 sizes                  real-dtype matrices at k = 4..7 (LinearMcx branches inside Qdmcu, ladder sweeps of Ldmcu),
+#                            MCU with 0 / 1 / 2 extra controls on int64 / float64 matrices    div_size_cases
+# Tie: generic members of the semantically-same forms (float64 reflection / rotation, Fortran / view / read-only / -0.0
+# complex128, global phase times RY) are built from the CONVERTED input and diffed against the model op of the canonical
+# matrix (div_tie); static helpers on hosts are tied with the host wires mapped to gate positions.  Special matrices
+# (X, Z, +-I ... whose roots coincide) cannot be identified root by root: oracle only.  Reduced precision, unsupported
+# forms, copy / inverse / twice: oracle only (the model has no such notion).
+
+DIV_REAL = ("int64", "f64", "f64-negzero", "f32", "f32-exact")
+DIV_REDUCED = ("f32", "c64")
+DIV_REDUCED_EXACT = ("f32-exact", "c64-exact")
+DIV_UNSUPPORTED = ("list", "tuple", "list-npscalars")
+DIV_INT_CS = ("int", "npint", "npint32")
+
+
+def div_conv(c, etype):
+    """The object handed to the library for the canonical complex128 matrix `c`."""
+    c = np.array(c, dtype=complex)
+    re, im = c.real.copy(), c.imag.copy()
+    real_valued = not im.any()
+    whole = real_valued and bool(np.all(re == np.rint(re)))
+    if etype == "c128":
+        return c
+    if etype in DIV_REAL and not real_valued:
+        raise AssertionError("real element type for a complex matrix")
+    if etype == "int64":
+        if not whole:
+            raise AssertionError("int64 for a non-integer matrix")
+        return np.rint(re).astype(np.int64)
+    if etype == "f64":
+        return re
+    if etype == "f64-negzero":
+        re[re == 0] = -0.0
+        return re
+    if etype in ("f32", "f32-exact"):
+        return re.astype(np.float32)
+    if etype in ("c64", "c64-exact"):
+        return c.astype(np.complex64)
+    if etype == "c128-negzero":
+        re[re == 0] = -0.0
+        im[im == 0] = -0.0
+        out = np.empty((2, 2), dtype=complex)
+        out.real, out.imag = re, im
+        return out
+    if etype == "npscalars":
+        if real_valued:
+            return np.array([[np.int64(x) if x == np.rint(x) else np.float64(x) for x in row] for row in re])
+        return np.array([[np.complex128(x) if x.imag else np.float64(x.real) for x in row] for row in c])
+    if etype == "fortran":
+        return np.asfortranarray(c)
+    if etype == "view":
+        big = np.full((4, 4), 7.0 + 3.0j)
+        big[::2, 1::2] = c
+        return big[::2, 1::2]
+    if etype == "readonly":
+        c.setflags(write=False)
+        return c
+    if etype in ("list", "tuple"):
+        rows = [[(int(x.real) if whole else float(x.real)) if real_valued else complex(x) for x in row] for row in c]
+        return rows if etype == "list" else tuple(tuple(r) for r in rows)
+    if etype == "list-npscalars":
+        return [[np.float64(x.real) if real_valued else np.complex128(x) for x in row] for row in c]
+    raise KeyError(etype)
+
+
+def div_is_real_form(spec):
+    """The object handed in is an ndarray of a real (integer / floating) dtype."""
+    m = div_conv(np.array(spec["re"], dtype=float) + 1j * np.array(spec["im"], dtype=float), spec.get("etype", "c128"))
+    return isinstance(m, np.ndarray) and m.dtype.kind in "iuf"
+
+
+def div_snapshot(m):
+    if isinstance(m, np.ndarray):
+        return (m.dtype.str, m.shape, m.tobytes())
+    return repr(m)
+
+
+def embed(op, n, wires):
+    """The operator `op` (on len(wires) qubits, little-endian) acting on host qubits `wires` IN THAT ORDER, identity on
+    the other qubits of an n-qubit host."""
+    xs = np.arange(2 ** n)
+    sub = np.zeros_like(xs)
+    rest = xs.copy()
+    for i, w in enumerate(wires):
+        sub |= ((xs >> w) & 1) << i
+        rest &= ~(1 << w)
+    return np.asarray(op)[sub[:, None], sub[None, :]] * (rest[:, None] == rest[None, :])
+
+
+def spec_norm(d):
+    return float(math.sqrt(max(np.linalg.eigvalsh(d.conj().T @ d)[-1], 0.0)))
+
+
+def div_cs(spec):
+    """ctrl_state in the form the spec asks for (canonical: `cs` string or None)."""
+    cs, k = spec.get("cs"), spec["k"]
+    f = spec.get("cs_form", "str")
+    if f == "int":
+        return int(cs, 2)
+    if f == "npint":
+        return np.int64(int(cs, 2))
+    if f == "npint32":
+        return np.int32(int(cs, 2))
+    if f == "ones":
+        return "1" * k
+    return cs
+
+
+def div_err(spec):
+    e, t = spec.get("error"), spec.get("etag", "float")
+    if t == "int":
+        return int(e)
+    if t == "f32":
+        return np.float32(e)
+    if t == "f64":
+        return np.float64(e)
+    return e
+
+
+def div_gate(entry, m, k, cs, spec):
+    from qclib.gates.ldmcu import Ldmcu
+    from qclib.gates.qdmcu import Qdmcu
+    from qclib.gates.mcg import Mcg
+    from qclib.gates.mcu import MCU
+    style = spec.get("ctor", "kw")
+    utd = spec.get("utd")
+    if entry == "ldmcu" or entry == "qdmcu":
+        cls = Ldmcu if entry == "ldmcu" else Qdmcu
+        if style == "pos":
+            return cls(m, k, cs)
+        if style == "allkw":
+            return cls(unitary=m, num_controls=k, ctrl_state=cs)
+        if style == "default":
+            return cls(m, k)
+        return cls(m, k, ctrl_state=cs)
+    if entry == "mcg":
+        if style == "pos":
+            return Mcg(m, k, cs, bool(utd)) if utd is not None else Mcg(m, k, cs)
+        if style == "allkw":
+            return Mcg(unitary=m, num_controls=k, ctrl_state=cs, up_to_diagonal=bool(utd))
+        if style == "default":        # only the keyword under test, ctrl_state left out
+            return Mcg(m, k, up_to_diagonal=bool(utd)) if utd is not None else Mcg(m, k)
+        return Mcg(m, k, ctrl_state=cs, up_to_diagonal=bool(utd)) if utd is not None else Mcg(m, k, ctrl_state=cs)
+    if entry == "mcu":
+        e = div_err(spec)
+        if style == "pos":
+            return MCU(m, k, e, cs)
+        if style == "allkw":
+            return MCU(unitary=m, num_controls=k, error=e, ctrl_state=cs)
+        if style == "default":
+            return MCU(m, k, e)
+        return MCU(m, k, e, ctrl_state=cs)
+    raise KeyError(entry)
+
+
+def div_static(entry, qc, m, ctrl, tgt, cs, spec):
+    from qclib.gates.ldmcu import Ldmcu
+    from qclib.gates.qdmcu import Qdmcu
+    from qclib.gates.mcg import Mcg
+    from qclib.gates.mcu import MCU
+    style = spec.get("call", "kw")
+    if entry == "mcu":
+        e = div_err(spec)
+        if style == "pos":
+            return MCU.mcu(qc, m, ctrl, tgt, e, cs)
+        if style == "allkw":
+            return MCU.mcu(circuit=qc, unitary=m, controls=ctrl, target=tgt, error=e, ctrl_state=cs)
+        if style == "default":
+            return MCU.mcu(qc, m, ctrl, tgt, e)
+        return MCU.mcu(qc, m, ctrl, tgt, error=e, ctrl_state=cs)
+    fn = {"ldmcu": Ldmcu.ldmcu, "qdmcu": Qdmcu.qdmcu, "mcg": Mcg.mcg}[entry]
+    if style == "pos":
+        return fn(qc, m, ctrl, tgt, cs)
+    if style == "allkw":
+        return fn(circuit=qc, unitary=m, controls=ctrl, target=tgt, ctrl_state=cs)
+    if style == "default":
+        return fn(qc, m, ctrl, tgt)
+    return fn(qc, m, ctrl, tgt, ctrl_state=cs)
+
+
+def div_host(spec):
+    """(circuit, control argument, target argument, wire list [controls..., target] as host indices)."""
+    from qiskit import QuantumCircuit, QuantumRegister
+    h = spec["host"]
+    regs = [QuantumRegister(sz, nm) for nm, sz in h["regs"]]
+    qc = QuantumCircuit(*regs)
+    byname = {r.name: r for r in regs}
+    qf = h["qform"]
+    if qf == "reg":
+        ctrl = byname[h["creg"]]
+    elif qf == "slice":
+        nm, a, b, st = h["slice"]
+        ctrl = byname[nm][slice(a, b, st)]
+    elif qf == "int":
+        ctrl = list(h["controls"])
+    elif qf == "tuple":
+        ctrl = tuple(qc.qubits[i] for i in h["controls"])
+    else:
+        ctrl = [qc.qubits[i] for i in h["controls"]]
+    tgt = h["target"] if qf == "int" else qc.qubits[h["target"]]
+    wires = [q if isinstance(q, int) else qc.find_bit(q).index for q in ctrl] + [h["target"]]
+    return qc, ctrl, tgt, wires
+
+
+def div_targets(spec, ref, k):
+    """The 2x2 matrices the construction may be the controlled version of: U itself; for Mcg(up_to_diagonal) outside
+    SU(2) with >= 2 controls U / det(U)^(1/2) (principal root; both roots when det is -1 to 1e-6, where the principal
+    branch is decided by the sign of a zero)."""
+    if spec["entry"] == "mcg" and spec.get("utd") and k >= 2 and not is_su2(ref):
+        a = float(np.angle(np.linalg.det(ref)))
+        t = ref * np.exp(-0.5j * a)
+        return [t, -t] if abs(abs(a) - math.pi) < 1e-6 else [t]
+    return [ref]
+
+
+def div_eval(spec):
+    import warnings
+    with warnings.catch_warnings():
+        warnings.simplefilter("ignore")
+        c = np.array(spec["re"], dtype=float) + 1j * np.array(spec["im"], dtype=float)
+        m = div_conv(c, spec.get("etype", "c128"))
+        ref = np.array(m, dtype=complex)
+        snap = div_snapshot(m)
+        res = {"exc": None}
+        try:
+            if spec["entry"].startswith("util."):
+                res.update(_div_eval_util(spec, m, ref))
+            else:
+                res.update(_div_eval_gate(spec, m, ref))
+        except Exception as e:  # classified by div_record (valid form: failure; unsupported form: counted)
+            res["exc"] = type(e).__name__
+            res["msg"] = str(e)[:160]
+        res["mutated"] = div_snapshot(m) != snap
+        return res
+
+
+def _div_eval_util(spec, m, ref):
+    from qclib.gates import util
+    fn = spec["entry"].split(".")[1]
+    if fn == "check_u2":
+        util.check_u2(m)
+        return {"err": 0.0}
+    if fn == "check_su2":
+        got = util.check_su2(m)
+        return {"err": 0.0 if bool(got) == is_su2(ref) else 1.0, "info": f"check_su2 = {got!r}, reference {is_su2(ref)}"}
+    su, ph = util.u2_to_su2(m)
+    su = np.asarray(su, dtype=complex)
+    if not (np.isfinite(su).all() and np.isfinite(ph)):
+        return {"err": float("inf"), "info": f"u2_to_su2 returned non-finite values (phase {ph!r})", "nan": True}
+    return {"err": max(float(abs(np.linalg.det(su) - 1.0)), float(np.abs(np.exp(1j * ph) * su - ref).max())),
+            "info": f"phase {ph!r}"}
+
+
+def _div_eval_gate(spec, m, ref):
+    from qiskit import QuantumCircuit
+    from qiskit.quantum_info import Operator
+    entry, form, k, cs = spec["entry"], spec.get("form", "class"), spec["k"], spec.get("cs")
+    csarg = div_cs(spec)
+    approx = entry == "mcu" and spec.get("error", 0) != 0
+    out = {}
+    if approx:
+        # the canonical construction (complex128 matrix, float error, string pattern): accept / reject must agree
+        from qclib.gates.mcu import MCU
+        try:
+            canon = Operator(MCU(ref.copy(), k, float(spec["error"]), ctrl_state=cs).definition).data
+        except (ValueError, OverflowError):
+            canon = None
+    power, dagger = 1, False
+    if form in ("class", "reuse"):
+        try:
+            g = div_gate(entry, m, k, csarg, spec)
+        except (ValueError, OverflowError):
+            if approx and canon is None:
+                return {"rejected": True}
+            raise
+        n, wires = k + 1, list(range(k + 1))
+        if form == "reuse":
+            s2 = spec["second"]
+            g2 = div_gate(s2["entry"], m, s2["k"], s2.get("cs"), s2)
+            op2 = Operator(g2.definition).data
+            out["err2"] = min(float(np.abs(op2 - ideal(t, s2["k"], s2.get("cs"))).max()) for t in div_targets(s2, ref, s2["k"]))
+        op = Operator(g.definition).data
+    else:
+        qc, ctrl, tgt, wires = div_host(spec)
+        n = qc.num_qubits
+        if len(wires) != k + 1:
+            raise AssertionError("harness: host wire list does not match k")
+        try:
+            if form == "static":
+                div_static(entry, qc, m, ctrl, tgt, csarg, spec)
+            else:
+                g = div_gate(entry, m, k, csarg, spec)
+                qargs = [*ctrl, tgt]
+                if form == "append":
+                    qc.append(g, qargs)
+                elif form == "twice":
+                    qc.append(g, qargs)
+                    qc.append(g, qargs)
+                    power = 2
+                elif form == "copy":
+                    cp = g.copy()            # taken before .definition is first read
+                    qc.append(cp, qargs)
+                    qc.append(g, qargs)
+                    power = 2
+                elif form == "inverse":
+                    qc.append(g.inverse(), qargs)
+                    dagger = True
+                elif form == "to_gate":
+                    qc.append(g.definition.to_gate(), qargs)
+                elif form == "to_instruction":
+                    qc.append(g.definition.to_instruction(), qargs)
+                else:
+                    raise KeyError(form)
+        except (ValueError, OverflowError):
+            if approx and canon is None:
+                return {"rejected": True}
+            raise
+        op = Operator(qc).data
+
+    def expected(small):
+        e = embed(small, n, wires)
+        if dagger:
+            e = e.conj().T
+        return e @ e if power == 2 else e
+
+    if approx:
+        if canon is None:
+            return {"err": float("inf"), "info": "accepted although the canonical construction (complex128 matrix, float error) rejects"}
+        out["self"] = float(np.abs(op - expected(canon)).max())
+        if power == 1:
+            out["dist"] = spec_norm(op - expected(ideal(ref, k, cs)))
+        out["err"] = out["self"]
+        return out
+    out["err"] = min(float(np.abs(op - expected(ideal(t, k, cs))).max()) for t in div_targets(spec, ref, k))
+    if "err2" in out:
+        out["err"] = max(out["err"], out.pop("err2"))
+    return out
+
+
+def div_key(spec):
+    h = spec.get("host")
+    parts = ["u2:div", spec["entry"], spec.get("form", "class"), spec.get("etype", "c128"), spec.get("uname", "U"),
+             f"k={spec['k']}", f"cs={spec.get('cs')}"]
+    if spec.get("utd") is not None:
+        parts.append("utd" if spec["utd"] else "utd=False")
+    if spec.get("cs_form", "str") != "str":
+        parts.append("cs-" + spec["cs_form"])
+    if spec.get("ctor"):
+        parts.append("ctor-" + spec["ctor"])
+    if spec.get("call"):
+        parts.append("call-" + spec["call"])
+    if "error" in spec:
+        parts.append(f"err={spec['error']:.4g}/{spec.get('etag', 'float')}")
+    if h:
+        where = h.get("creg") or (h.get("slice") and "slice" + "".join(str(x) for x in h["slice"])) or \
+            "".join(str(i) for i in h["controls"])
+        parts.append(f"{h['qform']}:{h['name']}:{where}>{h['target']}")
+    return ":".join(parts)
+
+
+def div_record(ctx, spec, res):
+    et = spec.get("etype", "c128")
+    key = div_key(spec)
+    rp = dict(spec, part="u2", probe="diversity")
+    entry, k = spec["entry"], spec["k"]
+    what = f"{entry} {spec.get('form', 'class')} form, matrix {spec.get('uname')} as {et}, k={k}, ctrl_state={div_cs(spec)!r}"
+    if res.get("mutated"):
+        ctx.fail(key + ":caller-matrix-modified", what + ": the caller's matrix object was changed", rp)
+        return
+    # decimal ctrl_state (Python int / numpy integer): documented for MCU, realised by apply_ctrl_state for MCU and Ldmcu
+    # (F-C04-13, fixed in /repo): judged by the operator oracle there.  Qdmcu / Mcg annotate `str`: where the call goes
+    # through (one control: qiskit's .control; Mcg's U(2) path = Ldmcu) the operator oracle applies as well, where it
+    # raises it is counted as an unsupported form.
+    int_cs = spec.get("cs_form") in DIV_INT_CS
+    unsupported = et in DIV_UNSUPPORTED or (int_cs and entry not in ("mcu", "ldmcu"))
+    if res["exc"] is not None:
+        exc = res["exc"]
+        if unsupported:
+            name = et if et in DIV_UNSUPPORTED else f"ctrl_state-{spec['cs_form']}:" + entry
+            ctx.count(f"diversity:{name}:unsupported-form-raises-{exc}")
+            return
+        ref = np.array(div_conv(np.array(spec["re"]) + 1j * np.array(spec["im"]), et), dtype=complex)
+        if div_is_real_form(spec) and et != "f32" and spec.get("utd") and k >= 2 and entry == "mcg" \
+                and float(np.linalg.det(ref).real) < 0:
+            ctx.fail(f"u2:div:mcg:up_to_diagonal:real-dtype-negative-det:{et}:{spec.get('uname')}:k={k}:{spec.get('form', 'class')}:raises-{exc}",
+                     what + f": raises {exc}: {res.get('msg')} (u2_to_su2 takes det ** (-1/2) of a REAL negative "
+                     f"determinant: nan; the matrix handed on is all-nan)", rp)
+            return
+        if exc == "ValueError" and (et in DIV_REDUCED or (et in DIV_REDUCED_EXACT and spec.get("utd") and k >= 2)
+                                    or (et in DIV_REDUCED_EXACT + DIV_REDUCED and entry == "util.u2_to_su2")) \
+                and "rthonormal" in res.get("msg", ""):
+            ctx.count(f"diversity:reduced-precision:{et}:rejected-ValueError")
+            return
+        if int_cs:
+            # regression probe of F-C04-13 (same key as when it was found: u2:div:mcu:ctrl_state-int:class:k=..:cs=..:raises-TypeError)
+            ctx.fail(f"u2:div:{entry}:ctrl_state-{spec['cs_form']}:{spec.get('form', 'class')}:k={k}:cs={div_cs(spec)}:raises-{exc}",
+                     what + f": raises {exc}: {res.get('msg')} (the MCU docstring documents `ctrl_state (str or int): Control "
+                     f"state in decimal or as a bitstring`, apply_ctrl_state of MCU / Ldmcu converts it; the constructor accepts "
+                     f"it, building the definition fails)", rp)
+            return
+        if exc == "QiskitError" and spec.get("form") == "to_gate" and "not a gate instruction" in res.get("msg", ""):
+            # qiskit refuses definition.to_gate() because the definition holds a sub-circuit appended as an Instruction
+            # ("T0", "c_V"); nothing about the operator: counted, reported as an observation
+            ctx.count(f"diversity:call:object:to_gate:{entry}:definition-holds-non-gate-Instruction-raises-QiskitError")
+            return
+        ctx.fail(key + f":raises-{exc}", what + f": raises {exc}: {res.get('msg')}", rp)
+        return
+    if res.get("rejected"):
+        ctx.count("diversity:mcu:rejected-like-canonical")
+        return
+    tol = TOL
+    if et in DIV_REDUCED:
+        tol = 1e-5
+    elif et in DIV_REDUCED_EXACT and (entry == "util.u2_to_su2" or (entry == "mcg" and k >= 2 and (spec.get("utd") or is_su2(
+            np.array(spec["re"]) + 1j * np.array(spec["im"])))) or (entry == "mcu" and spec.get("error", 0) != 0)):
+        # the SU(2) constructions (Ldmcsu / MultiTargetMCSU2 behind Mcg and MCU, u2_to_su2) do part of their arithmetic in the
+        # dtype handed in: complex64 / float32 rounding (~1.2e-7) is the reduced-precision rule of this pass, not a defect
+        tol = 1e-5
+        if res.get("err", 0) > TOL:
+            ctx.count(f"diversity:reduced-precision:{et}:su2-path-arithmetic-in-input-dtype (error {TOL:g}..1e-5)")
+    if res.get("nan") and div_is_real_form(spec):
+        ctx.fail(f"u2:div:util.u2_to_su2:real-dtype-negative-det:{et}:{spec.get('uname')}:nan",
+                 what + ": " + res.get("info", "") + " (det ** (-1/2) of a real negative determinant)", rp)
+        return
+    if not res["err"] <= tol:
+        ctx.fail(key, what + f": max |observed - ideal| = {res['err']:.3e} (tolerance {tol:g}) {res.get('info', '')}",
+                 dict(rp, observed=res["err"]))
+        return
+    if "dist" in res and not res["dist"] <= float(spec["error"]) + TOL:
+        ctx.fail(key + ":bound", what + f": spectral norm {res['dist']:.6e} > error {spec['error']}", dict(rp, observed=res["dist"]))
+        return
+    ctx.count("oracle:div:" + entry)
+    ctx.ok(key, nontrivial=k >= 1 and not entry.startswith("util."))
+
+
+def div_reported_finding(spec, res):
+    if res.get("mutated"):
+        return False
+    if res.get("nan") and div_is_real_form(spec):
+        return True
+    if res.get("exc") == "TypeError" and spec.get("cs_form") in DIV_INT_CS and spec["entry"] in ("mcu", "ldmcu"):
+        return True
+    return res.get("exc") == "ValueError" and spec["entry"] == "mcg" and bool(spec.get("utd")) and spec["k"] >= 2 \
+        and div_is_real_form(spec) and spec.get("etype") != "f32" \
+        and float(np.linalg.det(np.array(spec["re"], dtype=float)).real) < 0
+
+
+def div_tie(ctx, spec, u_canon):
+    """Skeleton of the construction made from the CONVERTED input (class form or static helper on a host) versus the
+    model op of the canonical matrix."""
+    import contextlib
+    import warnings
+    entry, k, cs = spec["entry"], spec["k"], spec.get("cs")
+    u_canon = np.asarray(u_canon, dtype=complex)
+    m = div_conv(u_canon, spec.get("etype", "c128"))
+    op = {"op": entry, "k": k, "cs": cs}
+    shallow = entry == "mcg"
+    if entry == "mcg":
+        op["su2"] = is_su2(u_canon)
+        op["utd"] = bool(spec.get("utd"))
+    approx = entry == "mcu" and spec.get("error", 0) != 0
+    if entry == "mcu" and not approx:
+        op["op"] = "ldmcu"
+    try:
+        with warnings.catch_warnings():
+            warnings.simplefilter("ignore")
+            if approx:
+                op["b"] = int(num_base_real(u_canon, float(spec["error"]))[2:])
+            patch = record_multi_target() if approx else contextlib.nullcontext()
+            if spec.get("form", "class") == "class":
+                g = div_gate(entry, m, k, div_cs(spec), spec)
+                with patch:
+                    lines = skeleton(g.definition, u_canon, shallow=shallow)
+            else:
+                with patch:
+                    qc, ctrl, tgt, wires = div_host(spec)
+                    div_static(entry, qc, m, ctrl, tgt, div_cs(spec), spec)
+                    pos = {w: i for i, w in enumerate(wires)}
+                    lines = []
+                    for inst in qc.data:
+                        qs = [pos.get(qc.find_bit(q).index, 90 + qc.find_bit(q).index) for q in inst.qubits]
+                        skeleton(inst.operation.definition, u_canon, qs, lines, shallow)
+    except Exception as e:
+        lines = [f"RAISES {type(e).__name__}"]
+    ctx.tie(op, lines, label="diversity " + div_key(spec), driver=DRIVER)
+    ctx.count("tie:div:" + entry)
+
+
+def _mat(m):
+    m = np.asarray(m, dtype=complex)
+    return {"re": m.real.tolist(), "im": m.imag.tolist()}
+
+
+def refl(t):
+    return np.array([[math.cos(t), math.sin(t)], [math.sin(t), -math.cos(t)]], dtype=complex)
+
+
+IY = np.array([[0, -1], [1, 0]], dtype=complex)           # real, det +1 (SU(2))
+SQRTX = 0.5 * np.array([[1 + 1j, 1 - 1j], [1 - 1j, 1 + 1j]])
+
+
+def div_etype_cases(ctx, nprng):
+    r = ctx.rng
+    t1, t2 = r.uniform(0.4, 2.6), r.uniform(0.4, 1.4)
+    hu = tie_u(nprng)
+    fams = {"X": X, "Z": Z, "-I": -I2, "I": I2, "iY": IY, "H": H, "RY": ry(t1), "-RY": -ry(t1), "refl": refl(t2),
+            "Y": Y, "S": S, "sqrtX": SQRTX, "iX": 1j * X, "haarU2": hu}
+    table = [
+        ("int64", ["X", "Z", "-I", "iY", "I"]),
+        ("f64", ["X", "H", "RY", "-RY", "refl"]),
+        ("f64-negzero", ["Z", "X"]),
+        ("f32-exact", ["X", "Z", "iY"]),
+        ("f32", ["H", "RY"]),
+        ("c64-exact", ["X", "Y", "S", "sqrtX", "iX"]),
+        ("c64", ["haarU2"]),
+        ("c128-negzero", ["X", "S", "RY"]),
+        ("npscalars", ["H", "Y", "Z"]),
+        ("fortran", ["haarU2", "refl"]),
+        ("view", ["haarU2", "H"]),
+        ("readonly", ["haarU2", "refl"]),
+        ("list", ["X", "Y"]),
+        ("tuple", ["X", "H"]),
+        ("list-npscalars", ["Z"]),
+    ]
+    specs = []
+    i = 0
+    for et, names in table:
+        for j, nm in enumerate(names):
+            ctx.count("diversity:etype:" + et)
+            base = dict(_mat(fams[nm]), uname=nm, etype=et)
+            light = et in DIV_UNSUPPORTED
+            for entry, ks in (("ldmcu", (0, 1, 2, 3) if j == 0 else (2, 3)), ("qdmcu", (1, 2, 3) if j == 0 else (2, 3)),
+                              ("mcg", (0, 1, 2, 3) if j == 0 else (1, 2, 3))):
+                for k in ((2,) if light else ks):
+                    i += 1
+                    cs = None if (i % 3 == 0 or k == 0) else "".join(r.choice("01") for _ in range(k))
+                    specs.append(dict(base, entry=entry, k=k, cs=cs))
+            i += 1
+            k = 2 + i % 2
+            specs.append(dict(base, entry="mcg", k=k, utd=True, cs=None if i % 2 else "".join(r.choice("01") for _ in range(k)),
+                              ctor="pos" if i % 4 < 2 else "kw"))
+            # the same forms through a static helper on a host (controls non-ascending, target in the middle)
+            ent = ("ldmcu", "qdmcu", "mcg")[i % 3]
+            specs.append(dict(base, entry=ent, form="static", k=3, cs="".join(r.choice("01") for _ in range(3)),
+                              host=dict(name="q6", regs=[["q", 6]], qform="int" if i % 2 else "qubit", controls=[4, 1, 3], target=2)))
+    # tie: generic members of the semantically-same forms
+    tie_fams = {"refl": refl(t2), "RY": ry(t1), "haarU2": hu}
+    for et, nm in (("f64", "refl"), ("f64", "RY"), ("fortran", "haarU2"), ("view", "haarU2"), ("readonly", "haarU2"),
+                   ("npscalars", "refl"), ("f64-negzero", "refl")):
+        for entry in ("ldmcu", "qdmcu", "mcg"):
+            if entry == "mcg" and nm == "refl":
+                continue        # a reflection is its own inverse: the call line U^(+1) / U^(-1) of Mcg cannot be told apart
+            for k in (2, 3):
+                cs = "".join(r.choice("01") for _ in range(k))
+                div_tie(ctx, dict(entry=entry, k=k, cs=cs, etype=et, uname=nm), tie_fams[nm])
+        if nm != "refl":        # det exactly -1: the branch of det^(1/2) hangs on the sign of a zero, oracle only (both roots)
+            div_tie(ctx, dict(entry="mcg", k=3, cs="010", etype=et, uname=nm, utd=True), tie_fams[nm])
+    return specs
+
+
+def div_phase_cases(ctx, nprng):
+    r = ctx.rng
+    a = [r.uniform(0.3, 2.8) for _ in range(8)]
+    pi = math.pi
+    bases = {"I": I2, "X": X, "Z": Z, "H": H, "RY": ry(a[0]), "RZ": rz(a[1]), "RX": rx(a[2]), "iY": IY}
+    phases = {"-1": -1.0, "i": 1j, "-i": -1j, "e^it": np.exp(1j * r.uniform(0.3, 2.8))}
+    have = {("-1", "I"), ("i", "I"), ("i", "X"), ("-i", "Z")}         # already in family()
+    mats = [(f"{p}*{b}", pv * bv, "global phase " + p) for p, pv in phases.items() for b, bv in bases.items() if (p, b) not in have]
+    for rn, rf in (("RX", rx), ("RY", ry), ("RZ", rz)):
+        for an, av in (("2pi", 2 * pi), ("-2pi", -2 * pi), ("4pi", 4 * pi), ("-4pi", -4 * pi), ("3pi", 3 * pi), ("-3pi", -3 * pi),
+                       ("2pi+a", 2 * pi + a[3]), ("-2pi-a", -2 * pi - a[4]), ("4pi+a", 4 * pi + a[5]), ("-4pi-a", -4 * pi - a[6]),
+                       ("6pi-a", 6 * pi - a[7])):
+            mats.append((f"{rn}({an})", rf(av), "rotation angle " + an))
+    # scale analogue: one pair of entries tiny (nearly diagonal / nearly anti-diagonal), outside every isclose band
+    for eps in (1e-3, 1e-5):
+        mats.append((f"tinyRY({eps:g})", ry(2 * eps), "light off-diagonal"))
+        mats.append((f"nearX({eps:g})", X @ ry(2 * eps), "light diagonal"))
+        mats.append((f"i*nearZ({eps:g})", 1j * Z @ ry(2 * eps), "light off-diagonal"))
+    specs = []
+    for i, (nm, m, tag) in enumerate(mats):
+        ctx.count("diversity:phase:" + tag)
+        for j, entry in enumerate(("ldmcu", "qdmcu", "mcg")):
+            k = 1 + (i + j) % 3
+            cs = None if (i + j) % 2 else "".join(r.choice("01") for _ in range(k))
+            specs.append(dict(_mat(m), uname=nm, entry=entry, k=k, cs=cs))
+        if not is_su2(m):
+            k = 2 + i % 2
+            specs.append(dict(_mat(m), uname=nm, entry="mcg", k=k, utd=True, cs="".join(r.choice("01") for _ in range(k)),
+                              ctor="kw" if i % 2 else "pos"))
+    # tie: global phases on a generic real rotation (U(2) path) and rotations beyond 2 pi (SU(2) path of Mcg)
+    for nm, m in (("-1*RYg", -ry(a[0])), ("i*RYg", 1j * ry(a[0])), ("e^it*RYg", phases["e^it"] * ry(a[0])),
+                  ("RY(2pi+a)", ry(2 * pi + a[3])), ("RZ(-2pi-a)", rz(-2 * pi - a[4]))):
+        for entry in ("ldmcu", "qdmcu", "mcg"):
+            k = 2 + r.randrange(2)
+            div_tie(ctx, dict(entry=entry, k=k, cs="".join(r.choice("01") for _ in range(k)), uname=nm), m)
+    return specs
+
+
+def div_mcu_setup(u, extra, kmax=5, k=None):
+    """(k, error) such that the dominant eigen-angle of `u` gives a base count b (mid-band) with error < 1 and
+    k = b + extra <= kmax (the least such b; b = k - extra when k is given); None if there is none or the dominant
+    angle is not safely positive (the constructor rejects those)."""
+    ang = np.angle(np.linalg.eigvals(np.asarray(u, dtype=complex)))
+    dom = max(ang, key=lambda x: 1 - math.cos(x))
+    oth = min(ang, key=lambda x: 1 - math.cos(x))
+    if dom < 0.05 or (abs(abs(dom) - abs(oth)) < 1e-6 and oth < 0):
+        return None
+    for b in ([k - extra] if k is not None else range(1, kmax + 1)):
+        e = error_for_base(float(dom), b) if b >= 1 else None
+        if e is not None and 0 < e < 0.98 and b + extra <= kmax:
+            return b + extra, e
+    return None
+
+
+def div_mcu_cases(ctx, nprng):
+    r = ctx.rng
+    p1, p2 = r.uniform(0.25, 0.6), r.uniform(0.25, 0.6)
+    specs = []
+    # element types of the matrix (positive dominant eigen-angle) x form of `error`
+    mats = [("X", X, "int64"), ("Z", Z, "int64"), ("Z", Z, "f64-negzero"), ("H", H, "f64"), ("refl", refl(r.uniform(0.4, 1.4)), "f64"),
+            ("X", X, "f32-exact"), ("S", S, "c64-exact"), ("sqrtX", SQRTX, "c64-exact"), ("S", S, "c128-negzero"),
+            ("P", np.diag([1, np.exp(1j * p1)]), "fortran"), ("P", np.diag([1, np.exp(1j * p2)]), "view"),
+            ("P", np.diag([1, np.exp(1j * p2)]), "readonly"), ("H", H, "npscalars"), ("X", X, "list"), ("P", np.diag([1, np.exp(1j * p1)]), "c64")]
+    etags = ("float", "f32", "f64", "int")
+    for i, (nm, m, et) in enumerate(mats):
+        ctx.count("diversity:mcu:etype:" + et)
+        for extra in (0, 1):
+            st = div_mcu_setup(m, extra)
+            if st is None:
+                continue
+            k, e = st
+            etag = etags[(i + extra) % 3]
+            ctx.count("diversity:mcu:error-as-" + etag)
+            ctor = ("kw", "pos", "allkw", "default")[(i + extra) % 4]
+            cs = None if ctor == "default" else "".join(r.choice("01") for _ in range(k))
+            specs.append(dict(_mat(m), uname=nm, etype=et, entry="mcu", k=k, cs=cs, error=e, etag=etag, ctor=ctor))
+    # error = 1 passed as a Python int (and as float / numpy scalars of the same value, which must build the same gate)
+    for etag in etags:
+        ctx.count("diversity:mcu:error-as-" + etag)
+        for nm, m, et, k in (("X", X, "int64", 3), ("Z", Z, "f64", 4), ("S", S, "c128", 2)):
+            specs.append(dict(_mat(m), uname=nm, etype=et, entry="mcu", k=k, cs="".join(r.choice("01") for _ in range(k)),
+                              error=1.0, etag=etag))
+    # sign / phase structure: global phases and rotations beyond 2 pi whose dominant eigen-angle is positive
+    pi = math.pi
+    t = r.uniform(0.4, 2.4)
+    for nm, m in (("-1*I", -I2), ("i*I", 1j * I2), ("i*Z", 1j * Z), ("-1*Z", -Z), ("i*X", 1j * X), ("-i*H", -1j * H), ("-1*RY", -ry(t)),
+                  ("e^it*RZ", np.exp(0.9j) * rz(t)), ("i*RZ", 1j * rz(0.6 * t)),
+                  ("e^it*X", np.exp(0.7j) * X), ("e^it*RY", np.exp(1.1j) * ry(0.5 * t)), ("e^it*H", np.exp(0.4j) * H), ("RZ(2pi+a)", rz(2 * pi + t)), ("RZ(-2pi-a)", rz(-2 * pi - t)),
+                  ("RX(4pi+a)", rx(4 * pi + t)), ("RY(2pi)", ry(2 * pi)), ("RZ(3pi)", rz(3 * pi)), ("RX(-3pi)", rx(-3 * pi))):
+        ctx.count("diversity:mcu:phase")
+        for extra in (0, 1):
+            st = div_mcu_setup(m, extra)
+            if st is None:
+                ctx.count("diversity:mcu:phase:dominant-angle-not-positive (constructor rejects)")
+                break
+            k, e = st
+            specs.append(dict(_mat(m), uname=nm, entry="mcu", k=k, cs=None if extra else "".join(r.choice("01") for _ in range(k)),
+                              error=e))
+    # tie: converted matrix / error forms against the model's truncated ladder
+    for et, etag, extra in (("fortran", "f32", 1), ("view", "f64", 0), ("readonly", "float", 2)):
+        u = np.diag([1, np.exp(1j * p1)])
+        st = div_mcu_setup(u, extra)
+        if st:
+            div_tie(ctx, dict(entry="mcu", k=st[0], cs="".join(r.choice("01") for _ in range(st[0])), etype=et, uname="P",
+                              error=st[1], etag=etag), u)
+    for nm, m, et in (("Z", Z, "int64"), ("H", H, "f64")):
+        # special matrices: roots not identifiable one by one, but the n_base decision is tied through `numbase`
+        ang = np.angle(np.linalg.eig(div_conv(m, et))[0])
+        for e in (0.3, 1):
+            if abs((1 - math.cos(ang[0])) - (1 - math.cos(ang[1]))) > 1e-9:
+                ctx.tie({"op": "numbase", "a0": float(ang[0]), "a1": float(ang[1]), "err": float(e)},
+                        [num_base_real(div_conv(m, et), e)], label=f"diversity num_base {nm} as {et}, error {e!r}", driver=DRIVER,
+                        compare=lambda op, impl, model: None if impl == model else f"impl={impl} model={model}")
+    return specs
+
+
+HOSTS = {
+    "q6": [["q", 6]],
+    "bca": [["b", 3], ["c", 1], ["a", 2]],
+    "abc": [["a", 2], ["b", 3], ["c", 1]],
+    "t-idle-ctl": [["t", 1], ["idle", 2], ["ctl", 3]],
+    "ctl-idle-t-x": [["ctl", 3], ["idle", 1], ["t", 1], ["x", 1]],
+    "c2-t-idle": [["c2", 2], ["t", 1], ["idle", 3]],
+}
+PLACES = {1: [([2], 0), ([0], 5)], 2: [([5, 0], 3), ([3, 1], 2)], 3: [([4, 1, 3], 2), ([5, 2, 0], 1)], 4: [([5, 3, 0, 4], 1)]}
+
+
+def div_static_cases(ctx, nprng):
+    r = ctx.rng
+    ut = tie_u(nprng)
+    su = to_su2(haar_u2(nprng))
+    phi = r.uniform(0.25, 0.6)
+    up = np.diag([1, np.exp(1j * phi)])
+    entries = [("ldmcu", "tieU", ut, None), ("qdmcu", "tieU", ut, None), ("mcg", "tieU", ut, None), ("mcg", "su2", su, None),
+               ("mcu", "tieU", ut, 0), ("mcu", "P", up, "approx")]
+    styles = ("kw", "pos", "allkw", "default")
+    specs = []
+    i = 0
+
+    def add(entry, nm, m, err, k, host, tie=True):
+        nonlocal i
+        i += 1
+        style = styles[i % 4]
+        cs = None if style == "default" else ("1" * k if i % 7 == 0 else "".join(r.choice("01") for _ in range(k)))
+        sp = dict(_mat(m), uname=nm, entry=entry, form="static", k=k, cs=cs, call=style, host=host)
+        if err == 0:
+            sp["error"] = 0
+        elif err == "approx":
+            st = div_mcu_setup(m, (i % 2 + 1) if k >= 3 else (1 if k == 2 else 0), k=k)
+            if st is None:
+                return
+            sp["error"] = st[1]
+        ctx.count(f"diversity:call:static:{host['qform']}")
+        ctx.count(f"diversity:call:static:{style}")
+        specs.append(sp)
+        if tie:
+            div_tie(ctx, sp, m)
+
+    for entry, nm, m, err in entries:
+        for k, places in PLACES.items():
+            for (ctrl, tgt) in places:
+                for qf, hn in (("int", "q6"), ("qubit", "bca"), ("tuple", "abc")):
+                    if (i + k) % 2 and qf == "tuple" and k != 3:
+                        i += 1
+                        continue
+                    add(entry, nm, m, err, k, dict(name=hn, regs=HOSTS[hn], qform=qf, controls=ctrl, target=tgt), tie=qf != "tuple")
+        # whole register / register slices as `controls`
+        add(entry, nm, m, err, 3, dict(name="t-idle-ctl", regs=HOSTS["t-idle-ctl"], qform="reg", creg="ctl", target=0))
+        add(entry, nm, m, err, 3, dict(name="ctl-idle-t-x", regs=HOSTS["ctl-idle-t-x"], qform="reg", creg="ctl", target=4))
+        add(entry, nm, m, err, 2, dict(name="c2-t-idle", regs=HOSTS["c2-t-idle"], qform="reg", creg="c2", target=2))
+        add(entry, nm, m, err, 3, dict(name="abc", regs=HOSTS["abc"], qform="slice", slice=["b", None, None, -1], target=0))
+        add(entry, nm, m, err, 2, dict(name="abc", regs=HOSTS["abc"], qform="slice", slice=["b", 0, 3, 2], target=3))
+        add(entry, nm, m, err, 2, dict(name="bca", regs=HOSTS["bca"], qform="slice", slice=["b", 2, 0, -1], target=4))
+    return specs
+
+
+def div_object_cases(ctx, nprng):
+    r = ctx.rng
+    ut = tie_u(nprng)
+    su = to_su2(haar_u2(nprng))
+    phi = r.uniform(0.25, 0.6)
+    up = np.diag([1, np.exp(1j * phi)])
+    kinds = [("ldmcu", "tieU", ut, {}), ("qdmcu", "tieU", ut, {}), ("mcg", "tieU", ut, {}), ("mcg", "su2", su, {}),
+             ("mcg", "tieU", ut, {"utd": True, "ctor": "pos"}), ("mcg", "tieU", ut, {"utd": True, "ctor": "kw"}),
+             ("mcg", "su2", su, {"utd": True, "ctor": "allkw"}), ("mcg", "tieU", ut, {"utd": False, "ctor": "pos"}),
+             ("mcu", "P", up, {"approx": True})]
+    forms = ("append", "twice", "copy", "inverse", "to_gate", "to_instruction")
+    qfs = (("int", "q6"), ("qubit", "bca"), ("qubit", "abc"))
+    specs = []
+    i = 0
+    for entry, nm, m, extra in kinds:
+        for form in forms:
+            i += 1
+            k = (3, 2, 4, 3, 1, 2)[i % 6]
+            ctrl, tgt = PLACES[k][i % len(PLACES[k])]
+            qf, hn = qfs[i % 3]
+            sp = dict(_mat(m), uname=nm, entry=entry, form=form, k=k, cs="".join(r.choice("01") for _ in range(k)),
+                      host=dict(name=hn, regs=HOSTS[hn], qform=qf, controls=ctrl, target=tgt))
+            sp.update({a: b for a, b in extra.items() if a != "approx"})
+            if extra.get("approx"):
+                st = div_mcu_setup(m, 1 if k >= 2 else 0, k=k)
+                if st is None:
+                    continue
+                sp["error"] = st[1]
+            ctx.count("diversity:call:object:" + form)
+            specs.append(sp)
+    # constructors: every argument by keyword / positionally / only one optional argument; ctrl_state None, explicit
+    # all-ones, int
+    for entry, nm, m, extra in kinds:
+        for j, ctor in enumerate(("allkw", "pos", "default", "kw")):
+            for k in (2, 3):
+                i += 1
+                sp = dict(_mat(m), uname=nm, entry=entry, k=k, ctor=ctor,
+                          cs=None if ctor == "default" else "".join(r.choice("01") for _ in range(k)))
+                sp.update({a: b for a, b in extra.items() if a not in ("approx", "ctor")})
+                if extra.get("approx"):
+                    st = div_mcu_setup(m, j % k, k=k)
+                    if st is None:
+                        continue
+                    sp["error"] = st[1]
+                ctx.count("diversity:call:ctor:" + ctor)
+                specs.append(sp)
+        for cs_form, k, cs in (("ones", 2, None), ("ones", 3, None), ("int", 1, "0"), ("int", 2, "01"), ("int", 3, "101"), ("int", 3, "111"),
+                               ("npint", 1, "1"), ("npint", 2, "10"), ("npint", 3, "000"), ("npint32", 3, "011"), ("npint32", 4, "0110")):
+            sp = dict(_mat(m), uname=nm, entry=entry, k=k, cs=cs, cs_form=cs_form)
+            sp.update({a: b for a, b in extra.items() if a not in ("approx", "ctor")})
+            if extra.get("approx"):
+                st = div_mcu_setup(m, 1 if k >= 2 else 0, k=k)
+                if st is None:
+                    continue
+                sp["error"] = st[1]
+            elif cs_form in DIV_INT_CS and extra:
+                continue
+            ctx.count("diversity:call:ctrl_state-" + cs_form)
+            specs.append(sp)
+    # decimal ctrl_state through the static helpers and through append / inverse / twice on permuted host qubits
+    # (apply_ctrl_state rewrites self.ctrl_state when the definition is built: the second use must see the same gate)
+    statics = [("ldmcu", "tieU", ut, {}), ("mcu", "tieU", ut, {"error": 0}), ("mcu", "P", up, {"approx": True}),
+               ("mcg", "tieU", ut, {}), ("mcg", "su2", su, {}), ("qdmcu", "tieU", ut, {})]
+    for entry, nm, m, extra in statics:
+        for j, (form, cs_form) in enumerate((("static", "int"), ("static", "npint"), ("append", "npint32"), ("twice", "int"),
+                                             ("inverse", "npint"), ("copy", "int"))):
+            if form != "static" and extra.get("error") == 0:
+                continue
+            i += 1
+            k = (3, 2, 4, 1)[(i + j) % 4]
+            ctrl, tgt = PLACES[k][i % len(PLACES[k])]
+            qf, hn = qfs[i % 3]
+            sp = dict(_mat(m), uname=nm, entry=entry, form=form, k=k, cs="".join(r.choice("01") for _ in range(k)), cs_form=cs_form,
+                      host=dict(name=hn, regs=HOSTS[hn], qform=qf, controls=ctrl, target=tgt))
+            if form == "static":
+                sp["call"] = ("kw", "pos", "allkw")[i % 3]
+            if extra.get("error") == 0:
+                sp["error"] = 0
+            if extra.get("approx"):
+                st = div_mcu_setup(m, 1 if k >= 2 else 0, k=k)
+                if st is None:
+                    continue
+                sp["error"] = st[1]
+            ctx.count(f"diversity:call:ctrl_state-{cs_form}:{form}")
+            specs.append(sp)
+            if entry in ("ldmcu", "mcu") and form == "static":
+                div_tie(ctx, sp, m)
+    for entry, nm, m, extra in (("ldmcu", "tieU", ut, {}), ("mcu", "P", up, {"approx": True})):
+        for cs_form, k, cs in (("int", 3, "010"), ("npint", 2, "01"), ("npint32", 4, "1001")):
+            sp = dict(_mat(m), uname=nm, entry=entry, k=k, cs=cs, cs_form=cs_form)
+            if extra.get("approx"):
+                st = div_mcu_setup(m, 1, k=k)
+                if st is None:
+                    continue
+                sp["error"] = st[1]
+            div_tie(ctx, sp, m)
+    # one matrix object for two constructions (second one read first); the caller's array must stay as it was
+    for (e1, k1), (e2, k2) in ((("ldmcu", 2), ("qdmcu", 3)), (("mcg", 3), ("ldmcu", 1)), (("qdmcu", 2), ("mcg", 2))):
+        for nm, m, et in (("tieU", ut, "c128"), ("refl", refl(0.8), "f64"), ("X", X, "int64")):
+            ctx.count("diversity:call:matrix-object-reused")
+            specs.append(dict(_mat(m), uname=nm, etype=et, entry=e1, form="reuse", k=k1, cs="".join(r.choice("01") for _ in range(k1)),
+                              second=dict(entry=e2, k=k2, cs="".join(r.choice("01") for _ in range(k2)))))
+    return specs
+
+
+def div_size_cases(ctx, nprng):
+    r = ctx.rng
+    specs = []
+    t = r.uniform(0.4, 1.4)
+    for k in (4, 5, 6, 7):
+        ctx.count("diversity:size:real-dtype k=4..7")
+        for entry, nm, m, et in (("qdmcu", "refl", refl(t), "f64"), ("ldmcu", "X", X, "int64"), ("qdmcu", "Z", Z, "int64"),
+                                 ("ldmcu", "-RY", -ry(t), "f64"), ("mcg", "H", H, "f64"), ("mcg", "iY", IY, "int64")):
+            if k >= 6 and entry == "mcg" and nm == "iY":
+                continue
+            cs = "".join(r.choice("01") for _ in range(k))
+            specs.append(dict(_mat(m), uname=nm, etype=et, entry=entry, k=k, cs=cs))
+    div_tie(ctx, dict(entry="qdmcu", k=6, cs="010110", etype="f64", uname="refl"), refl(t))
+    div_tie(ctx, dict(entry="ldmcu", k=5, cs="01101", etype="f64", uname="refl"), refl(t))
+    for nm, m, et in (("Z", Z, "int64"), ("H", H, "f64"), ("S", S, "c64-exact")):
+        for extra in (0, 1, 2):
+            st = div_mcu_setup(m, extra, kmax=6)
+            if st is None:
+                continue
+            ctx.count(f"diversity:size:mcu extra controls={extra}")
+            k, e = st
+            specs.append(dict(_mat(m), uname=nm, etype=et, entry="mcu", k=k, cs="".join(r.choice("01") for _ in range(k)), error=e,
+                              etag=("f64", "float", "f32")[extra]))
+    return specs
+
+
+def div_util_cases(ctx, nprng):
+    r = ctx.rng
+    t = r.uniform(0.4, 1.4)
+    hu = haar_u2(nprng)
+    specs = []
+    for nm, m, ets in (("X", X, ("int64", "f64", "f32-exact", "c64-exact", "c128", "list", "tuple", "c128-negzero", "f64-negzero")),
+                       ("iY", IY, ("int64", "f64", "f32-exact", "c128", "list")),
+                       ("-I", -I2, ("int64", "f64-negzero", "c128")),
+                       ("refl", refl(t), ("f64", "f32", "npscalars", "c128", "readonly")),
+                       ("RY", ry(t), ("f64", "f32", "c128-negzero")),
+                       ("S", S, ("c64-exact", "c128", "c128-negzero", "fortran")),
+                       ("sqrtX", SQRTX, ("c64-exact", "view")),
+                       ("haarU2", hu, ("c128", "c64", "fortran", "view", "readonly", "list-npscalars")),
+                       ("-1*haarSU2", -to_su2(hu), ("c128", "view")),
+                       ("i*RY", 1j * ry(t), ("c128", "readonly"))):
+        for et in ets:
+            for fn in ("check_u2", "check_su2", "u2_to_su2"):
+                if fn == "check_su2" and et in DIV_REDUCED:
+                    continue        # |det - 1| of a rounded matrix is ~1e-8: inside the band around isclose's 1e-9
+                ctx.count("diversity:util." + fn)
+                specs.append(dict(_mat(m), uname=nm, etype=et, entry="util." + fn, k=0, cs=None))
+    return specs
+
+
+def diversity(ctx, nprng):
+    specs = []
+    for gen in (div_etype_cases, div_phase_cases, div_mcu_cases, div_static_cases, div_object_cases, div_size_cases, div_util_cases):
+        specs += gen(ctx, nprng)
+    seen, uniq = set(), []
+    for s in specs:
+        key = div_key(s)
+        if key not in seen:
+            seen.add(key)
+            uniq.append(s)
+    done = list(zip(uniq, pool_map(div_eval, uniq)))
+    # the two findings of this pass (real dtype + negative determinant in u2_to_su2: F-C04-12; int ctrl_state of MCU:
+    # F-C04-13; both fixed in /repo, their keys kept as regression probes) are recorded LAST, so that any other failure of
+    # a run is the one the VIOLATION line points to
+    late = [i for i, (s, res) in enumerate(done) if div_reported_finding(s, res)]
+    for i, (s, res) in enumerate(done):
+        if i not in late:
+            div_record(ctx, s, res)
+    for i in late:
+        div_record(ctx, *done[i])
+    ctx.notes.append(f"c04_u2: input-diversity pass evaluated {len(uniq)} cases (element types, sign / phase structure, call "
+                     f"forms, sizes); reduced-precision (float32 / complex64 rounded) inputs may be rejected by check_u2 "
+                     f"(ValueError) or must be right to 1e-5 for the up-cast value; list / tuple matrices and int ctrl_state of "
+                     f"Ldmcu / Qdmcu / Mcg are not supported forms (counted)")
+
+
+# ------------------------------------------------------------------------------------------------
 # entry points
 # ------------------------------------------------------------------------------------------------
 
@@ -973,6 +1926,7 @@ def run(ctx, kmax=None, kpat=None):
                      f"eigen-angle is negative is rejected by the constructor: log2 of a negative quotient)")
     if kmax <= 7:
         boundary(ctx, nprng)
+    diversity(ctx, nprng)
 
 
 def search(ctx, hints):
@@ -994,6 +1948,9 @@ def replay(ctx, r):
         return
     if r.get("probe") == "entry-points":
         entry_points(ctx, ctx.nprng())
+        return
+    if r.get("probe") == "diversity":
+        div_record(ctx, r, div_eval(r))
         return
     u = np.array(r["unitary_re"]) + 1j * np.array(r["unitary_im"])
     cls, k, cs = r["call"], int(r["k"]), r.get("ctrl_state")
